@@ -180,5 +180,61 @@ for name, f in DYA.items():
     out.append('//@   modifies $R.Value@{c}, $R.N@{c}, $R.Order@{c}, $R.Derivative@{c}, $R.Hessian@{c}, []$F@{q :: owns_$R(c, q)}')
     out.append('')
 out.append('//@ end')
+out.append('')
+
+# --- refinement of the interface model functions by every covered implementation --------------
+out.append('// ---------------------------------------------------------------------------')
+out.append('// the getters of each covered scalar type refine the interface model functions (C02: equal operands give')
+out.append('// equal values whatever scalar type holds them)')
+out.append('//@ propsdefault C02')
+out.append('//@ for $S in (*Real64), (*Real32), (Float64), (Float32), (ConstFloat64), (ConstFloat32)')
+out.append('//@ func $S.GetFloat64')
+out.append('//@   requires RIc(a)')
+out.append('//@   ensures result == val(a)')
+out.append('//@   pure')
+out.append('//@ func $S.GetFloat32')
+out.append('//@   requires RIc(a)')
+out.append('//@   ensures result == val(a)')
+out.append('//@   pure')
+out.append('//@ func $S.GetOrder')
+out.append('//@   requires RIc(a)')
+out.append('//@   ensures result == order(a)')
+out.append('//@   pure')
+out.append('//@ func $S.GetN')
+out.append('//@   requires RIc(a)')
+out.append('//@   ensures result == nvars(a)')
+out.append('//@   pure')
+out.append('//@ func $S.GetDerivative')
+out.append('//@   requires RIc(a) && (order(a) >= 1 ==> 0 <= i && i < nvars(a))')
+out.append('//@   ensures result == D(a, i)')
+out.append('//@   pure')
+out.append('//@ func $S.GetHessian')
+out.append('//@   requires RIc(a) && (order(a) >= 2 ==> 0 <= i && i < nvars(a) && 0 <= j && j < nvars(a))')
+out.append('//@   ensures result == H(a, i, j)')
+out.append('//@   pure')
+out.append('//@ end')
+out.append('')
+
+# --- plain float scalars: value of every covered operation ---------------------------------------
+FTWIN = {'Neg': 'NEG', 'Add': 'ADD', 'Sub': 'SUB', 'Mul': 'MUL', 'Div': 'DIV'}
+out.append('//@ propsdefault C02 C08 C09')
+out.append('//@ for $S,$F in (Float64,float64), (Float32,float32)')
+out.append('//@ spec okF_$S(c $S) bool = c.ptr != nil')
+for name, f in list(MON.items()) + list(DYA.items()):
+    two = name in DYA
+    def insto(e):
+        t = re.sub(r'\bx\b', 'old(val(a))', pr(e))
+        return re.sub(r'\by\b', 'old(val(b))', t)
+    out.append('//@ func ($S).%s' % name + (' [also: ($S).%s]' % FTWIN[name] if name in FTWIN else ''))
+    out.append('//@   requires okF_$S(c) && RIc(a)' + (' && RIc(b)' if two else ''))
+    if name in DOMAIN:
+        out.append('//@   requires ' + DOMAIN[name])
+    if name == 'Div':
+        out.append('//@   requires val(b) != 0')
+    out.append('//@   ensures deref(c.ptr) == %s' % insto(f))
+    out.append('//@   ensures isa($S, result) && as($S, result) == c')
+    out.append('//@   modifies []$F@{c.ptr}')
+    out.append('')
+out.append('//@ end')
 open('/repo/zz_contracts_scalar_verif.go', 'w').write('\n'.join(out) + '\n')
 print('written', len(out), 'lines')
